@@ -344,6 +344,31 @@ def compare_hasseb(exp_cmds, subs, obs, case):
         want = [[str(w["bits"]), "%#x" % w["value"]] for w in wire]
         if got != want:
             out.append(("C20:hasseb:own-traffic-report", "subscriber %d saw %r, wire order was %r" % (k, got, want)))
+            continue
+        # each own command is reported as good, together with what its caller was told (None for a command without answer)
+        frame_oc = {}
+        for cspec in case["callers"]:
+            for c in cspec["cmds"]:
+                cmd = sc.build_cmd(c)
+                frame_oc["%d|%#x" % (len(cmd.frame), cmd.frame.as_integer)] = (cmd, tuple(c.get("oc", ("silent",))))
+        from dali import frame as _frame
+        for (t, c, r, e) in sub["log"]:
+            key = "|".join(c.split("|")[1:3])
+            if e:
+                out.append(("C20:hasseb:own-command-reported-as-failed", "subscriber %d: %s reported with the error flag set" % (k, c)))
+                break
+            if key in frame_oc:
+                cmd, oc = frame_oc[key]
+                if cmd.response is None:
+                    want_r = None
+                else:
+                    bf = None if oc[0] == "silent" else _frame.BackwardFrame(oc[1]) if oc[0] == "value" else _frame.BackwardFrameError(oc[1] if len(oc) > 1 else 0)
+                    want_r = resp_fp(cmd.response(bf))
+                if (r is None) != (want_r is None) or (r is not None and want_r is not None and r.split("|")[0] != want_r.split("|")[0]) or \
+                        (oc[0] in ("silent", "value") and r != want_r):
+                    out.append(("C20:hasseb:own-command-reported-with-wrong-response", "subscriber %d: %s reported with %r, its caller "
+                                "was told %r" % (k, c, r, want_r)))
+                    break
     return out
 
 
